@@ -353,10 +353,12 @@ def run(ctx):
         r = ctx.tlc("MC_TxValidate", "MC_TxValidate_cached", expect_ok=False, count=False, timeout=900)
         ctx.selftest("model_rejects_cache_keyed_by_hash_type", (not r.ok) and r.violated == "ReportedIsCurrent")
 
-    if want("replay"):
+    if want("replay") or any(o.startswith("replay_") for o in (only or ())):
         plans = (["MC_TxReplay_one", "MC_TxReplay_q", "MC_TxReplay_walk_q"] if q else
                  ["MC_TxReplay_one", "MC_TxReplay_t", "MC_TxReplay_deep", "MC_TxReplay_walk_t"])
         for cfg in plans:
+            if only is not None and "replay" not in only and not any(o.startswith("replay_") and o[7:] in cfg for o in only):
+                continue
             recs = []
             ctx.tlc("MC_TxValidate", cfg, on_record=lambda rec: recs.append(rec) if rec.get("k") == "hist" else None,
                     keep_records=False, timeout=3000)
